@@ -555,6 +555,16 @@ def r9_relation_names_exist(ctx, res):
         raise AnalysisError(f'only {n} calls with literal relation names found')
 
 
+def r10_borrowed_relations_complete(ctx, res):
+    """relations() / get_related() / closure() include the relations borrowed through expand lexicons: for every borrowed relation
+    EVERY in-scope synset carrying the target's ILI is a target (an ILI may be shared by several synsets of one lexicon, by two
+    installed versions, by a base and its extension), with the source and relation row it was borrowed from - the analysis of
+    Synset._iter_expanded_relations on its effect summary (C12-R1, C12-R2)."""
+    from .c12 import r1_provenance, r2_nullness
+    r1_provenance(ctx, res)
+    r2_nullness(ctx, res)
+
+
 RULES = [
     ('C11-R1', r1_termination, 6),
     ('C11-R2', r2_sibling_relation_queries, 10),
@@ -565,4 +575,5 @@ RULES = [
     ('C11-R7', r7_targets_are_row_entities, 3),
     ('C11-R8', r8_iter_relations_unconditional, 1),
     ('C11-R9', r9_relation_names_exist, 6),
+    ('C11-R10', r10_borrowed_relations_complete, 10),
 ]
